@@ -89,6 +89,13 @@ package bft
 //@   callsite SendToProposer requires[checked] msg != nil && !interrupt
 //@   callsite SendToProposer requires[locked] b.HighQC != nil && b.HighQC == msg.Qc && b.HighQC.Block == b.Block && b.HighQC.Results == b.Results
 
+// the proposer/proposal check itself: it lets a stored leader message through only when the message's certificate is
+// for the block AND the certificate results this replica holds right now (a leader message is filed under the round in
+// its own header and may be consumed in a later round, after the same block was re-proposed with other results - the
+// comparison made when the message arrived says nothing about the proposal held when it is used)
+//@ func (*BFT).CheckProposerAndProposal
+//@   ensures[sameproposal] !interrupt ==> bytes(msg.Qc.BlockHash) == bytes(b.BlockHash) && bytes(msg.Qc.ResultsHash) == resultsHashOf(b.Results)
+
 // ---- C01: only signed consensus messages are counted ----------------------------------------------------------
 // a replica's vote or a leader's message reaches the vote / proposal sets only after the signature in its wrapper
 // verified, under the key in that wrapper, over the message's own sign bytes
